@@ -199,11 +199,14 @@ def grep_forbidden() -> list[str]:
     return hits
 
 
-def audit(prop: str, with_src: bool = False):
-    """#print axioms for every theorem of Props/<prop>.lean (and Props/Src/<prop>.lean); returns (per-theorem dict, raw output)"""
+def audit(prop: str, with_src: bool = False, extra_props=()):
+    """#print axioms for every theorem of Props/<prop>.lean (and Props/Src/<prop>.lean, and the extra Props files a check
+    attaches to the property, e.g. Props/Pipeline.lean to C08); returns (per-theorem dict, raw output)"""
     names = theorem_names(prop)
     if with_src:
         names = names + theorem_names(prop, src_props_path(prop))
+    for ep in extra_props:
+        names = names + theorem_names(ep)
     d = os.path.join(LEAN_DIR, '.audit')
     os.makedirs(d, exist_ok=True)
     f = os.path.join(d, f'Audit_{prop}.lean')
@@ -211,6 +214,8 @@ def audit(prop: str, with_src: bool = False):
         fh.write(f'import OutrankModel.Props.{prop}\n')
         if with_src:
             fh.write(f'import OutrankModel.Props.Src.{prop}\n')
+        for ep in extra_props:
+            fh.write(f'import OutrankModel.Props.{ep}\n')
         for n in names:
             fh.write(f'#print axioms {n}\n')
     rc, out = sh(['lake', 'env', 'lean', f], cwd=LEAN_DIR)
@@ -432,10 +437,11 @@ def own_modules(root: str) -> list[str]:
     return sorted(seen)
 
 
-def prepare(prop: str, tier: str, extra_targets=()):
+def prepare(prop: str, tier: str, extra_targets=(), extra_props=()):
     """steps 2+3: build the property's theorems and the driver; audit axioms. Returns build_info.
+    `extra_props`: further Props files whose theorems count as obligations of this check (built + audited with it).
     Raises InfraError when the failure is /verif's own (not attributable to a regenerated Gen file)."""
-    targets = [f'OutrankModel.Props.{prop}', 'outrank_driver'] + list(extra_targets)
+    targets = [f'OutrankModel.Props.{prop}', 'outrank_driver'] + list(extra_targets) + [f'OutrankModel.Props.{ep}' for ep in extra_props]
     ok, out = lake_build(targets)
     info = {'checker_cmd': 'cd /verif/lean && lake build ' + ' '.join(targets) + ' && lake env lean .audit/Audit_%s.lean  (#print axioms)' % prop,
             'trusted_base': list(TRUSTED_BASE), 'build_ok': ok, 'build_out': out[-3000:]}
@@ -456,7 +462,7 @@ def prepare(prop: str, tier: str, extra_targets=()):
             info['src_ok'] = False
             info['src_build_out'] = out2[-4000:]
             info['src_failed'] = failing_theorems(prop, out2)
-    thms, raw, rc = audit(prop, with_src=has_src and info['src_ok'])
+    thms, raw, rc = audit(prop, with_src=has_src and info['src_ok'], extra_props=extra_props)
     if has_src and not info['src_ok']:
         for n in theorem_names(prop, src_props_path(prop)):
             thms[n] = None                       # obligation not discharged
@@ -468,6 +474,8 @@ def prepare(prop: str, tier: str, extra_targets=()):
         mods = own_modules(f'OutrankModel.Props.{prop}')
         if has_src and info['src_ok']:
             mods = sorted(set(mods) | set(own_modules(f'OutrankModel.Props.Src.{prop}')))
+        for ep in extra_props:
+            mods = sorted(set(mods) | set(own_modules(f'OutrankModel.Props.{ep}')))
         info['leanchecker_modules'] = mods
         rc, o = sh(['lake', 'env', 'leanchecker'] + mods, cwd=LEAN_DIR, timeout=3600)
         info['leanchecker'] = 'ok' if rc == 0 else ('failed: ' + o[-500:])
